@@ -26,6 +26,10 @@ pub async fn on_document_selection_range_handle(
     let mut result = Vec::new();
     for pos in position {
         let offset = document.get_offset(pos.line as usize, pos.character as usize)?;
+        if offset > root.syntax().text_range().end() {
+            return None;
+        }
+
         let token = match root.syntax().token_at_offset(offset) {
             TokenAtOffset::Single(token) => token,
             TokenAtOffset::Between(_, right) => right,
